@@ -81,6 +81,12 @@ class FlowPolicy(Policy):
                 mod = self.program.module(rel)
             except Exception:  # noqa
                 mod = None
+            unit = getattr(interp, "unit", None)
+            if unit is not None and hasattr(self.program, "resolve_callable"):
+                # a function defined next to the unit under analysis (nested in the same enclosing function, or at module level)
+                hu = self.program.resolve_callable(unit, ast.Name(id=name))
+                if hu is not None and hu is not unit and isinstance(hu.node, (ast.FunctionDef, ast.AsyncFunctionDef)):
+                    return FuncV(hu.node, name=name)
             if mod is not None:
                 for st in mod.body:
                     if isinstance(st, (ast.FunctionDef, ast.AsyncFunctionDef)) and st.name == name:
@@ -279,6 +285,7 @@ def run_flow(program, uid, policy, args=None, heap=None, self_cls=None):
     unit = program.unit(uid)
     fn = unit.node
     interp = FlowInterp(policy, unit.rel)
+    interp.unit = unit
     env = {}
     params = [a.arg for a in fn.args.posonlyargs + fn.args.args + fn.args.kwonlyargs]
     if fn.args.vararg:
